@@ -220,15 +220,48 @@ class Recorder:
         self._add(f"raise.{ep.name}", [name, type(e).__name__, str(e)[:200], where(e)])
 
 
-class H3Pair:
-    """H3Connection on both endpoints of a Sim; QUIC events are fed to them"""
+class GenQuic:
+    """capture-only QUIC stub for a *generator* H3Connection: records every
+    send_stream_data call as a chunk (stream_id, data, end_stream); never logs"""
 
-    def __init__(self, run):
+    def __init__(self, is_client):
+        from aioquic.quic.configuration import QuicConfiguration
+        self.configuration = QuicConfiguration(is_client=is_client)
+        self.chunks = []
+        self.closed = None
+        self._quic_logger = None
+        self._remote_max_datagram_frame_size = 1200
+        self._next_bidi = 0 if is_client else 1
+        self._next_uni = 2 if is_client else 3
+
+    def close(self, error_code, reason_phrase=""):
+        self.closed = (error_code, reason_phrase)
+
+    def get_next_available_stream_id(self, is_unidirectional=False):
+        return self._next_uni if is_unidirectional else self._next_bidi
+
+    def send_stream_data(self, stream_id, data, end_stream=False):
+        if stream_id % 4 in (2, 3) and stream_id >= self._next_uni:
+            self._next_uni = stream_id + 4
+        if stream_id % 4 == (0 if self.configuration.is_client else 1) and stream_id >= self._next_bidi:
+            self._next_bidi = stream_id + 4
+        self.chunks.append((stream_id, bytes(data), bool(end_stream)))
+
+    def send_datagram_frame(self, data):
+        pass
+
+
+class H3Pair:
+    """H3Connection on the endpoints of a Sim (`only`: just that endpoint);
+    QUIC events are fed to them"""
+
+    def __init__(self, run, only=None):
         from aioquic.h3.connection import H3Connection
         self.run = run
         self.conns = {}
         for ep in run.sim.endpoints:
-            self.conns[ep.name] = H3Connection(ep.conn, enable_webtransport=run.opts.get("webtransport", False))
+            if only is None or ep.name == only:
+                self.conns[ep.name] = H3Connection(ep.conn, enable_webtransport=run.opts.get("webtransport", False))
         self.events = {"client": [], "server": []}
 
     def on_event(self, sim, ep, ev):
@@ -305,15 +338,15 @@ class Run:
             self.loggers = {ep.name: ep.conn._configuration.quic_logger for ep in self.sim.endpoints}
         self.h3 = None
 
-    def enable_h3(self):
-        self.h3 = H3Pair(self)
+    def enable_h3(self, only=None):
+        self.h3 = H3Pair(self, only)
         self.monitors.append(self.h3)
         self.sim.monitors.append(self.h3)
 
     def finish(self):
         for ep in self.sim.endpoints:
             self.rec.obs[f"final.{ep.name}"] = canon(ep.conn)
-            if self.h3 is not None:
+            if self.h3 is not None and ep.name in self.h3.conns:
                 self.rec.obs[f"finalh3.{ep.name}"] = canon(self.h3.conns[ep.name])
         self.sim.close_taps()
         self._stream_cls.__hash__ = self._orig_hash
